@@ -36,17 +36,35 @@ META = {
             "huawei/cisco/nexus rulebooks.",
     "technique": "Coq induction over sorted element lists / command lists, MSet decision procedure; vm_compute "
                  "differential check on real patch rows parsed back into set effects by Coq",
-    "note": "Theorems are about the structured Gallina models (lines = range lists, blocks = id + option rows); their tie "
-            "to the text-level models (printing, _parse_vlancfg, row diff, vlan_diff's batch_new over every `vlan batch` "
-            "row) and to /repo is the correspondence run (struct_is_text, agree, holds and their _db counterparts, "
-            "evaluated by Coq on every case; for the VLAN database Coq reads the structured input back from the very rows "
-            "given to the implementation). The check drives annet.api._diff_and_patch (device mode); file mode "
-            "(_read_old_new_diff_patch) has been repaired (C16) and builds the patch the same way, make_pre over the "
-            "unstripped diff, so unchanged rows reach the rule logics in either mode. Device semantics of the commands (vlan batch / undo vlan batch / "
-            "vlan N / undo vlan N / undo ... all / none) are an assumption (Model.Vlan.step, Model.VlanDb.effect). "
-            "Option rows inside a huawei `vlan N` block: `name`, `description` and catch-all rows, no `undo ...` rows. "
-            "Same option rows (negation `no`) inside a cisco/nexus `vlan N` block; a many-VLAN row with child rows is "
-            "outside the model; no totality theorem for the cisco block model (only: whenever it answers). Not modelled: "
+    "note": "Theorems are stated over structured inputs (lines = range lists, blocks = id + option rows) AND over the "
+            "text: the tie between the two levels is proved, not sampled. For every rule whose texts satisfy the "
+            "computable rule_text_ok (true of all shipped rule kinds, Example C11_shipped_rule_texts_ok) and every input "
+            "of wf_C11: print/parse round trips of range lists (` to ` words and `a-b,c` word, any list), annet's "
+            "expanders and _parse_vlancfg on printed lines return the rule prefix and the set of the line, the device "
+            "reader of command rows inverts the command printer on every emittable command, and the text-level model "
+            "(row diff by text, _parse_vlancfg_actions, _process_vlandb, command printing with the parsed prefixes) "
+            "equals the structured model composed with the printers (C11_struct_is_text; likewise C11_db_struct_is_text "
+            "for vlan_diff's batch_new over every `vlan batch` row and the split of top-level rows, and "
+            "C11_cisco_struct_is_text for the row diff by text and block ids read from parsed sets). Hence C11_rows_final / "
+            "C11_rows_no_transient_loss / C11_db_rows_* / C11_cisco_rows_* quantify over configuration ROWS in the "
+            "printer's range (rows_wf = read, print again, same rows), any permutation of the emitted ROWS, with S_old / "
+            "S_new = what annet itself parses from the rows (C11_rows_set_is_parsed); P_C11 / P_C11_db / P_C11_cdb are "
+            "proved true of the text-level models' own output (C11_rows_holds, ...). struct_is_text* is still evaluated on "
+            "every case (now a regression test of the proved statement). The tie of the text-level models to /repo is the "
+            "correspondence run (agree, holds evaluated by Coq on every case; for the VLAN database Coq reads the "
+            "structured input back from the very rows given to the implementation, parse_db, proved to invert print_db). "
+            "The check drives annet.api._diff_and_patch (device mode); file mode (_read_old_new_diff_patch) has been "
+            "repaired (C16) and builds the patch the same way, make_pre over the unstripped diff, so unchanged rows reach "
+            "the rule logics in either mode. Device semantics of the commands (vlan batch / undo vlan batch / vlan N / "
+            "undo vlan N / undo ... all / none) are definitions of the property (Model.Vlan.step, Model.VlanDb.effect), "
+            "supported by sanity theorems: frame, idempotence, a command and its inverse, commutation of commands naming "
+            "disjoint VLAN sets (any order for pairwise disjoint lists), `undo ... all` = removal of the whole current set "
+            "however written, replace = clear then add, block enter / undo vlan N inverse. "
+            "Option rows inside a huawei `vlan N` block: `name`, `description` and catch-all rows, no `undo ...` rows "
+            "(model restriction, unchanged). Same option rows (negation `no`) inside a cisco/nexus `vlan N` block; a "
+            "many-VLAN row with child rows is outside the model; the cisco block model is now proved total inside wf_cdb "
+            "(C11_cisco_blocks_total). A cisco block row without option rows prints like `vlan N` and is read back as "
+            "the batch add of N (same effect): the cisco rows theorems are stated through effects. Not modelled: "
             "the per-line keyed huawei `vlan pool * / vlan *` rule. Trusted: Coq kernel + VM, harness "
             "generators/printers/runner.",
 }
@@ -1074,7 +1092,12 @@ def run(ctx):
     })
     ctx.assumptions += [
         "device semantics of the commands: `undo P a to b` / `no P [remove] a-b` remove the written VLANs, `P ...` / "
-        "`P add ...` add them, `undo P all`, `undo instance N`, `P none` empty the list (Model.Vlan.step)",
+        "`P add ...` add them, `undo P all`, `undo instance N`, `P none` empty the list (Model.Vlan.step; definitions of "
+        "the property, with sanity theorems C11_step_frame_idempotent, C11_step_inverse, C11_step_commute, "
+        "C11_undo_all_is_removal_of_current, C11_whole_list_commands, C11_block_enter_undo)",
+        "rule texts: rule_text_ok (prefix = its words joined by single blanks, no comma, does not end in a number / "
+        "`to` / `add`, does not start with `undo` / `no`; reverse of multi_all = `undo` + prefix) - proved true of all "
+        "shipped rule kinds; configuration rows in the printer's range (single blanks, `a to b` / `a-b,c`)",
         "lines of the old list are pairwise disjoint (a VLAN is written on one line), ranges have lo <= hi",
         "ASCII rows; str.split/isdigit/int modelled for ASCII digits",
         "huawei single: at most one changed line per side (the code asserts it)",
